@@ -114,7 +114,7 @@ PROPS['C13'] = {
     'level': 'exploration',
     'technique': 'schedule enumeration on the real library with a residue invariant (recognisable secrets and a three-run key/message differential; private poisoned stack, post-ret register dump, manager scan) at every quiescent point',
     'level_text': 'For every algorithm row (both directions), 12 chained suites and every key-preparation helper on all 7 variants: schedules of n = 1..17 jobs of unequal lengths followed by flush (covering submit-completes and flush-completes paths and every partial lane occupancy); after every call that leaves the manager empty, the register dump taken immediately after ret, the 256 KiB private stack and the whole manager block are searched for any 8-byte window of the recognisable key objects / plaintext. The same invariant is evaluated after every call of the direct API (GCM / GMAC / GHASH one-shot and init-update-finalize, ChaCha20-Poly1305 direct, ZUC / SNOW3G / KASUMI 1..N-buffer and bit variants, single-block CFB, the QUIC helpers; encrypt and decrypt side, 11 lengths, 16 unequal buffers).',
-    'level_note': 'Two oracles. (1) Pattern oracle: exact copies of caller-visible secrets (raw keys, every word of every expanded/derived key object the caller passes, plaintext). (2) Differential oracle for internally derived state that is not a byte-copy (LFSR/FSM rows, keystream, E_K(counter), hash-key powers): the same schedules (four length cycles; quick two) and the same direct-API calls run three times from one pristine manager image with every object at the same address - keys A / messages M, keys B / M, keys A / complement of M; a 32-bit word of manager block, register dump or stack that differs with the key and not with the message is key-derived; 8 or more such bytes at quiescence (for direct calls: not a copy of what the call wrote to its output buffers) is a violation. Ciphertext, tags, digests and anything that also depends on the message are deliberately not secrets. tools/c13diag.sh names the instruction that wrote a reported word (hardware watchpoint).',
+    'level_note': 'Two oracles. (1) Pattern oracle: exact copies of caller-visible secrets (raw keys, every word of every expanded/derived key object the caller passes, plaintext). (2) Differential oracle for internally derived state that is not a byte-copy (LFSR/FSM rows, keystream, E_K(counter), hash-key powers): the same schedules (four length cycles; quick two) and the same direct-API calls run three times from one pristine manager image with every object at the same address - keys A / messages M, keys B / M, keys A / complement of M; a 32-bit word of manager block, register dump or stack that differs with the key and not with the message is key-derived; 8 or more such bytes at quiescence (for direct calls: not a copy of what the call wrote to its output buffers) is a violation; the key-preparation helpers get the two-run form (key A / key B, no message): words of registers / stack that differ with the key and are not copies of what the helper wrote to its output objects. Ciphertext, tags, digests and anything that also depends on the message are deliberately not secrets. tools/c13diag.sh names the instruction that wrote a reported word (hardware watchpoint).',
     'drivers': [{'name': 'c13', 'src': ['props/c13.c'] + ALG, 'cfgs': ['std'], 'args': ''}],
     'deadline': {'quick': 900, 'thorough': 3000},
     'assumptions': ['library built with SAFE_DATA (asserted through IMB_FEATURE_SAFE_DATA)'],
